@@ -53,3 +53,48 @@ def nest_tls_rule(res, fx, rule, file_res):
                        'unsynchronised updates make the count drift, so the guard neither bounds the recursion of one thread nor admits what it should' % gv['q'])
     # no such counter: nothing to require here — whether the parser recursion is bounded at all is decided by the recursion rule itself (R-REC reports the unguarded cycle)
     return len(seen_g)
+
+
+def param_underflow_rule(res, fx, rule, floor=1, file_re=r'.*', only_reach=None):
+    """UNDERFLOW: `a - b` on two unsigned length PARAMETERS of one function wraps to ~2^32 when b > a; callers supply the two lengths independently, so the function itself has to have
+    compared them (a >= b, in any spelling) on every path to the subtraction.  Judged for every such subtraction in the analysed functions (optionally only those in `only_reach`)."""
+    import re
+    from msa import ast as A, guards as G
+    res.rule(rule if isinstance(rule, str) else rule[0], 'UNDERFLOW: an unsigned subtraction whose two operands are (computed from) two different unsigned parameters of the function is reached only where the '
+             'subtrahend parameter was compared with the minuend parameter and found not larger', floor=None)
+    rule = rule if isinstance(rule, str) else rule[0]
+    n = 0
+    U = re.compile(r'^(const )?(unsigned int|unsigned long|unsigned short|size_t|muscle::uint32|uint32|uint64|muscle::uint64)$')
+    for f in sorted((f for f in fx.funcs.values() if f.full and re.search(file_re, f.file) and (only_reach is None or f.id in only_reach)), key=lambda f: (f.file, f.line, f.id)):
+        ups = dict((p_['d'], p_) for p_ in f.params if p_.get('d') is not None and U.match(f.ptype(p_).strip()))
+        if len(ups) < 2:
+            continue
+        seen = set()
+        for c in f.walk():
+            if c['k'] != 'BinaryOperator' or c.get('op') != '-' or not U.match((c.type() or '').strip()):
+                continue
+            rhs = A.strip_casts(c['ch'][1])
+            if rhs['k'] != 'DeclRefExpr' or rhs.get('d') not in ups:
+                continue
+            lds = set(x.get('d') for x in c['ch'][0].walk() if x['k'] == 'DeclRefExpr' and x.get('d') in ups and x.get('d') != rhs['d'])
+            if len(lds) != 1:
+                continue
+            a, b = list(lds)[0], rhs['d']
+            if (c.get('l'), a, b) in seen:
+                continue
+            seen.add((c.get('l'), a, b))
+            n += 1
+            ok = False
+            for (cn, t) in G.atoms_at(f, c):
+                for (l_, op_, r_) in A.rel_forms(cn, t):
+                    if l_['k'] == 'DeclRefExpr' and r_['k'] == 'DeclRefExpr' and l_.get('d') == b and r_.get('d') == a and op_ in ('<', '<=', '=='):
+                        ok = True
+            res.ob(rule, f.where(c), '%s: `%s` is computed only where %s <= %s' % (f.q.split('::')[-1], c.text(40), ups[b].get('n'), ups[a].get('n')), ok, function=f.q,
+                   key='%s|%s|underflow:%s-%s' % (rule, f.q, ups[a].get('n'), ups[b].get('n')),
+                   message='%s computes `%s` from its two unsigned parameters without having compared them: when %s > %s the result wraps to about 4 billion — a scan length, copy size or loop bound '
+                           'of that size runs off the end of the buffer (the caller supplies the two lengths independently: a query-filter operand longer than the field it is tested against)'
+                           % (f.q, c.text(50), ups[b].get('n'), ups[a].get('n')))
+    if n < floor:
+        from msa.facts import AnalysisBroken
+        raise AnalysisBroken('%s: only %d two-parameter subtractions found' % (rule, n))
+    return n
